@@ -64,6 +64,13 @@ def _is_simple(vertices):
     Bentley-Ottmann algorithm to check for intersections between the line
     segments.
     """
+    # The sweep uses absolute tolerances, so bring the polygon to unit size at the
+    # origin first (simplicity does not depend on position or scale).
+    vertices = np.asarray(vertices, dtype=np.float64)[:, :2]
+    vertices = vertices - np.mean(vertices, axis=0)
+    extent = np.max(np.abs(vertices))
+    if extent > 0:
+        vertices = vertices / extent
     return len(poly_point_isect.isect_polygon(vertices)) == 0
 
 
